@@ -558,7 +558,7 @@ pub fn c02_map_noncontiguous() {
 }
 
 // Sequences of an AdjacencyMap on a vertex set within {0, 2, 3}.
-// @verif prop=C02 tier=quick fl=f1 feat=map4 role=noncontiguous-sequences/adjacency-map t=1500 mem=30
+// @verif prop=C02 tier=quick fl=f2 feat=map4,fixedcap role=noncontiguous-sequences/adjacency-map t=1500 mem=24
 #[cfg_attr(kani, kani::proof)]
 #[cfg_attr(kani, kani::unwind(8))]
 pub fn c02_map_noncontiguous_sequences() {
